@@ -281,7 +281,7 @@ def day_grouping():
     return Q()
 
 
-DAY_TABLE = [(2024, 2, 15), (2024, 2, 29), (2024, 3, 1), (2024, 2, 26), (2024, 12, 31), (2025, 1, 1), (2024, 3, 31), (2023, 2, 28)]
+DAY_TABLE = [(2024, 2, 15), (2024, 2, 29), (2024, 3, 1), (2024, 2, 26), (2024, 12, 31), (2025, 1, 1), (2024, 3, 31), (2023, 2, 28), (2024, 1, 2), (2024, 12, 30)]
 
 
 def day_pairs():
@@ -290,14 +290,14 @@ def day_pairs():
     they share the Monday-based week; by("month") / by("year") likewise."""
     def ob(i: int, j: int) -> bool:
         """
-        pre: 0 <= i < 8 and 0 <= j < 8
+        pre: 0 <= i < 10 and 0 <= j < 10
         post: _
         """
         from datetime import datetime, timedelta
         from engine.ob import pick
         from tally.analyzer import analyze_transactions, classify_by_sections
         from tally.section_engine import parse_sections
-        i, j = pick(i, 8), pick(j, 8)
+        i, j = pick(i, 10), pick(j, 10)
         reset_tally_caches()
         d1, d2 = datetime(*DAY_TABLE[i]), datetime(*DAY_TABLE[j])
         tx = [{'merchant': 'M', 'category': 'C', 'subcategory': 'S', 'date': d, 'amount': a, 'tags': [], 'description': 'M', 'source': 'S'}
